@@ -129,10 +129,16 @@ func (d *StrListDecoder) Decode(b []byte) []string {
 }
 
 func ValidateStrListBytes(b []byte) (int, error) {
+	n := len(b)
+	if n < 4 {
+		return 0, fmt.Errorf("invalid strList")
+	}
 	count := int(binary.BigEndian.Uint32(b))
 	offset := 4
-	n := len(b)
 	for i := 0; i < count; i++ {
+		if offset+2 > n {
+			return 0, fmt.Errorf("invalid strList")
+		}
 		l := binary.BigEndian.Uint16(b[offset:])
 		offset += 2 + int(l)
 		if offset > n {
